@@ -39,7 +39,7 @@ theorem mem_sp_iff (hc : LintClean c) (hn : c.has n = true) (htfi : transitiveFa
     s ∈ sp0 ↔ s ∈ n :: tfi ∧ s ∈ c.startpointsAll := by
   have h1 : ∀ m ∈ [n], c.has m = true := by
     intro m hm; simp only [List.mem_singleton] at hm; subst hm; exact hn
-  rw [startpoints_ok c (typed_isSome hc) [n] (by simp) h1] at hsp
+  rw [startpoints_ok c (typed_isSome hc) [n] h1] at hsp
   rw [transitiveFanin_ok c [n] h1] at htfi
   injection hsp with hsp
   injection htfi with htfi
@@ -49,7 +49,7 @@ theorem mem_sp_iff (hc : LintClean c) (hn : c.has n = true) (htfi : transitiveFa
 theorem sp_nodup (hc : LintClean c) (hn : c.has n = true) (hsp : startpoints c [n] = .ok sp0) : sp0.Nodup := by
   have h1 : ∀ m ∈ [n], c.has m = true := by
     intro m hm; simp only [List.mem_singleton] at hm; subst hm; exact hn
-  rw [startpoints_ok c (typed_isSome hc) [n] (by simp) h1] at hsp
+  rw [startpoints_ok c (typed_isSome hc) [n] h1] at hsp
   injection hsp with hsp
   rw [← hsp]
   exact (List.filter_sublist).nodup (nodup_dedup _)
